@@ -72,6 +72,11 @@ inductive Node
   | or (operands : List Node)        -- OrNode
 deriving Repr
 
+/-- `_, ok := n.(*NotNode)`. -/
+def Node.isNot : Node → Bool
+  | .not _ => true
+  | _ => false
+
 /-- The `Labels` interface: `GetHandle(name) (value, present)`. -/
 abbrev Labels := Str → Option Str
 
@@ -157,7 +162,9 @@ def Node.text : Node → Str
   | .has l => kwHasP ++ l ++ [')']
   | .all => txtAll
   | .global => txtGlobal
-  | .not n => '!' :: n.text
+  | .not n =>
+    -- a directly nested negation keeps its parentheses (the parser folds a run of `!`)
+    if n.isNot then '!' :: '(' :: (n.text ++ [')']) else '!' :: n.text
   | .and ns => '(' :: (Node.textJoin sepAnd ns ++ [')'])
   | .or ns => '(' :: (Node.textJoin sepOr ns ++ [')'])
 /-- first operand, then `sep ++ operand` for the others. -/
